@@ -7,7 +7,13 @@
 //                                  N<n>   nth_channel_view (homogeneous kinds, anywhere in the list)
 //                                  K<k>   kth_channel_view<k>   (last)      X  color_converted_view with a channel-inverting converter (last)
 //                                  Y      color_converted_view<value_type of the view> with the same converter (last): returns the view itself
+//                                  Z<off> color_converted_view<bgr8> with a STATEFUL converter (dst colour = src colour + off mod 256; default-constructed: off = 0);
+//                                         kinds with colour conversion only; any op may follow X / Z (N<n> / K<k> then act on the dereference-adaptor view)
+//   xa ...  the same, but every view of the chain is built by ASSIGNMENT into an already constructed view of the result type
+//           (the source view when the factory keeps the type, else a default-constructed one)
 //   -> `w h | tag addr  tag addr ... | start len  start len ...`
+//        a 4th group `| x y path tag0 tagp` appears iff some access path (1 row_begin(y)[x], 2 *xy_at, 3 *x_at, 4 begin()[i], 5 *at, 6 col_begin(x)[y],
+//        7 a default-constructed locator ASSIGNED from xy_at(0,0) and moved by (x,y)) reads another pixel value than view(x,y)
 //        tag  = identity tag decoded from the pixel read through the derived view (source pixel (x,y) holds y*W+x+1, split over channels)
 //        addr = position of the derived view's x-iterator at (x,y), memory units relative to the source's first byte
 //        third group: bit intervals of the arena changed by ONE write (all bits complemented) through the derived view at (wx,wy)
@@ -95,33 +101,44 @@ struct inv_cc {     // dst channel (by colour) = 255 - src channel
     }
 };
 
+struct off_cc {     // stateful: dst channel (by colour) = src channel + off (mod 256); a default-constructed converter is the identity
+    int off = 0;
+    off_cc() {}
+    explicit off_cc(int o) : off(o) {}
+    template <class S, class D> void operator()(S const& s, D& d) const {
+        gil::get_color(d, gil::red_t()) = (unsigned char)(gil::get_color(s, gil::red_t()) + off);
+        gil::get_color(d, gil::green_t()) = (unsigned char)(gil::get_color(s, gil::green_t()) + off);
+        gil::get_color(d, gil::blue_t()) = (unsigned char)(gil::get_color(s, gil::blue_t()) + off);
+    }
+};
+
 // ---------------------------------------------------------------- kinds
 template <class Pix, int CB, bool Homog, bool CanX> struct K_inter {
-    static constexpr bool virt = false, homog = Homog, canx = CanX, cank = Homog; static constexpr int cb = CB;   // kth_channel_view of a packed_pixel view does not compile
+    static constexpr bool virt = false, homog = Homog, canx = CanX, cank = Homog, deep = CanX; static constexpr int cb = CB;   // kth_channel_view of a packed_pixel view does not compile
     using view_t = typename gil::type_from_x_iterator<Pix*>::view_t;
     static view_t make(long W, long H, long PAD, long) { return gil::interleaved_view(W, H, (Pix*)ORG, W * (long)sizeof(Pix) + PAD); }
 };
 struct K_step8 {     // rgb8 pixels, the source itself has a dynamic x step of two pixels
-    static constexpr bool virt = false, homog = true, canx = true, cank = true; static constexpr int cb = 8;
+    static constexpr bool virt = false, homog = true, canx = true, cank = true, deep = false; static constexpr int cb = 8;
     using view_t = gil::rgb8_step_view_t;
     static view_t make(long W, long H, long PAD, long) {
         using x_it = view_t::x_iterator;
         return view_t(W, H, view_t::locator(x_it((gil::rgb8_pixel_t*)ORG, 6), W * 6 + PAD)); }
 };
 template <class T, int CB, bool CanX> struct K_planar {
-    static constexpr bool virt = false, homog = true, canx = CanX, cank = true; static constexpr int cb = CB;
+    static constexpr bool virt = false, homog = true, canx = CanX, cank = true, deep = false; static constexpr int cb = CB;
     using view_t = typename gil::type_from_x_iterator<gil::planar_pixel_iterator<T*, gil::rgb_t>>::view_t;
     static view_t make(long W, long H, long PAD, long) {
         return gil::planar_rgb_view(W, H, (T*)ORG, (T*)(ORG + PLANE), (T*)(ORG + 2 * PLANE), W * (long)sizeof(T) + PAD); }
 };
 template <class Img, int Bits, int CB> struct K_bit {
-    static constexpr bool virt = false, homog = false, canx = false, cank = true; static constexpr int cb = CB;
+    static constexpr bool virt = false, homog = false, canx = false, cank = true, deep = false; static constexpr int cb = CB;
     using view_t = typename Img::view_t;
     static view_t make(long W, long H, long PAD, long OFF) {
         return view_t(W, H, typename view_t::locator(typename view_t::x_iterator(ORG, (int)OFF), W * Bits + PAD)); }
 };
 struct K_virtual {
-    static constexpr bool virt = true, homog = false, canx = false, cank = false; static constexpr int cb = 32;
+    static constexpr bool virt = true, homog = false, canx = false, cank = false, deep = false; static constexpr int cb = 32;
     using loc_t = gil::virtual_2d_locator<coord_fn, false>;
     using view_t = gil::image_view<loc_t>;
     static view_t make(long W, long H, long PAD, long OFF) { return view_t(gil::point_t(W, H), loc_t(gil::point_t(PAD, OFF), gil::point_t(1, 1))); }
@@ -146,16 +163,30 @@ static std::vector<Xf> parse_xf(std::string const& s) {
 static void put(std::string& s, long long v) { s += std::to_string(v); s += ' '; }
 
 template <class K> struct Obs {
-    long wx, wy; std::string out;
+    long wx, wy; std::string out; bool assign = false;
+    template <class Px> static long long tagof(Px const& px) { if constexpr (K::virt) return (long long)gil::at_c<0>(px); else return decode(px, K::cb); }
     template <class V> void operator()(V const& v, bool allow_write = true) {
         long W = v.width(), H = v.height();
         put(out, W); put(out, H); out += "| ";
+        bool bad = false; long long mm[5] = {0, 0, 0, 0, 0};
         for (long y = 0; y < H; ++y) for (long x = 0; x < W; ++x) {
             typename V::value_type px = v(x, y);
-            put(out, K::virt ? (long long)gil::at_c<0>(px) : decode(px, K::cb)); put(out, it_addr(v.x_at(x, y)));
+            long long t0 = tagof(px);
+            put(out, t0); put(out, it_addr(v.x_at(x, y)));
+            // every other access path must read the same pixel value
+            long long tp[7];
+            { typename V::value_type q = v.row_begin(y)[x]; tp[0] = tagof(q); }
+            { typename V::value_type q = *v.xy_at(x, y); tp[1] = tagof(q); }
+            { typename V::value_type q = *v.x_at(x, y); tp[2] = tagof(q); }
+            { typename V::value_type q = v.begin()[y * W + x]; tp[3] = tagof(q); }
+            { typename V::value_type q = *v.at(x, y); tp[4] = tagof(q); }
+            { typename V::value_type q = v.col_begin(x)[y]; tp[5] = tagof(q); }
+            { typename V::xy_locator loc; loc = v.xy_at(0, 0); loc += typename V::point_t(x, y); typename V::value_type q = *loc; tp[6] = tagof(q); }
+            for (int k = 0; k < 7 && !bad; ++k) if (tp[k] != t0) { bad = true; mm[0] = x; mm[1] = y; mm[2] = k + 1; mm[3] = t0; mm[4] = tp[k]; }
         }
         out += "| ";
         write_test(v, std::integral_constant<bool, gil::view_is_mutable<V>::value && !K::virt>(), allow_write && W > 0 && H > 0);
+        if (bad) { out += "| "; for (long long q : mm) put(out, q); }
     }
     template <class V> void write_test(V const&, std::false_type, bool) {}
     template <class V> void write_test(V const& v, std::true_type, bool doit) {
@@ -178,30 +209,49 @@ template <class K> struct Obs {
 };
 
 // every factory maps the (few) view types of a kind into themselves, so the recursion is finite
-template <class K, class V> void walk(V const& v, std::vector<Xf> const& xs, size_t i, Obs<K>& f) {
+template <class K, int D = 0, class V> void walk(V const& v, std::vector<Xf> const& xs, size_t i, Obs<K>& f);
+// D = number of dereference-adaptor layers added so far (bounded: every layer is a new view type)
+// continue on the factory's result `r`: directly, or (assign mode) on an already constructed view of its type that `r` is ASSIGNED to
+template <class K, int D, class V, class R> void next(V const& v, R const& r, std::vector<Xf> const& xs, size_t i, Obs<K>& f) {
+    if (!f.assign) { walk<K, D>(r, xs, i, f); return; }
+    if constexpr (std::is_same<R, V>::value) { R tmp(v); tmp = r; walk<K, D>(tmp, xs, i, f); }       // previous value: the differently stepped source
+    else { R tmp; tmp = r; walk<K, D>(tmp, xs, i, f); }                                              // previous value: default-constructed
+}
+template <class V> constexpr bool is3 = gil::num_channels<V>::value == 3;
+template <class K, int D, class V> void walk(V const& v, std::vector<Xf> const& xs, size_t i, Obs<K>& f) {
     if (i == xs.size()) { f(v); return; }
     Xf const& t = xs[i];
     switch (t.c) {
-    case 'U': walk<K>(gil::flipped_up_down_view(v), xs, i + 1, f); break;
-    case 'L': walk<K>(gil::flipped_left_right_view(v), xs, i + 1, f); break;
-    case 'T': walk<K>(gil::transposed_view(v), xs, i + 1, f); break;
-    case 'R': walk<K>(gil::rotated90cw_view(v), xs, i + 1, f); break;
-    case 'C': walk<K>(gil::rotated90ccw_view(v), xs, i + 1, f); break;
-    case 'I': walk<K>(gil::rotated180_view(v), xs, i + 1, f); break;
-    case 'S': walk<K>(gil::subsampled_view(v, t.a[0], t.a[1]), xs, i + 1, f); break;
-    case 'B': walk<K>(gil::subimage_view(v, t.a[0], t.a[1], t.a[2], t.a[3]), xs, i + 1, f); break;
-    case 'N': if constexpr (K::homog) { walk<K>(gil::nth_channel_view(v, (int)t.a[0]), xs, i + 1, f); } else f.out = "bad-op"; break;
+    case 'U': next<K, D>(v, gil::flipped_up_down_view(v), xs, i + 1, f); break;
+    case 'L': next<K, D>(v, gil::flipped_left_right_view(v), xs, i + 1, f); break;
+    case 'T': next<K, D>(v, gil::transposed_view(v), xs, i + 1, f); break;
+    case 'R': next<K, D>(v, gil::rotated90cw_view(v), xs, i + 1, f); break;
+    case 'C': next<K, D>(v, gil::rotated90ccw_view(v), xs, i + 1, f); break;
+    case 'I': next<K, D>(v, gil::rotated180_view(v), xs, i + 1, f); break;
+    case 'S': next<K, D>(v, gil::subsampled_view(v, t.a[0], t.a[1]), xs, i + 1, f); break;
+    case 'B': next<K, D>(v, gil::subimage_view(v, t.a[0], t.a[1], t.a[2], t.a[3]), xs, i + 1, f); break;
+    case 'N':     // basic views: a re-pointed gray view (no new layer); dereference-adaptor views: one more adaptor layer (at most 2 in total)
+        if constexpr (K::homog && gil::view_is_basic<V>::value) next<K, D>(v, gil::nth_channel_view(v, (int)t.a[0]), xs, i + 1, f);
+        else if constexpr (K::homog && D == 1) next<K, 2>(v, gil::nth_channel_view(v, (int)t.a[0]), xs, i + 1, f);
+        else f.out = "bad-op";
+        break;
     case 'K':
-        if constexpr (K::cank && gil::num_channels<V>::value == 3) {
+        if constexpr (K::cank && is3<V> && D <= 1) {
             if (t.a[0] == 0) f(gil::kth_channel_view<0>(v)); else if (t.a[0] == 1) f(gil::kth_channel_view<1>(v)); else f(gil::kth_channel_view<2>(v));
         } else f.out = "bad-op";
         break;
-    case 'X':
-        if constexpr (K::canx && gil::num_channels<V>::value == 3) f(gil::color_converted_view<gil::bgr8_pixel_t>(v, inv_cc()));
+    case 'X':     // dereference adaptor with a stateless converter; K::deep kinds continue the walk on the adaptor view
+        if constexpr (K::canx && is3<V> && K::deep && D == 0) next<K, 1>(v, gil::color_converted_view<gil::bgr8_pixel_t>(v, inv_cc()), xs, i + 1, f);
+        else if constexpr (K::canx && is3<V> && D == 0) f(gil::color_converted_view<gil::bgr8_pixel_t>(v, inv_cc()));
+        else f.out = "bad-op";
+        break;
+    case 'Z':     // dereference adaptor with a STATEFUL converter
+        if constexpr (K::canx && is3<V> && K::deep && D == 0) next<K, 1>(v, gil::color_converted_view<gil::bgr8_pixel_t>(v, off_cc((int)t.a[0])), xs, i + 1, f);
+        else if constexpr (K::canx && is3<V> && D == 0) f(gil::color_converted_view<gil::bgr8_pixel_t>(v, off_cc((int)t.a[0])));
         else f.out = "bad-op";
         break;
     case 'Y':     // destination pixel type = the view's own value type: color_converted_view returns the source view (nothing is converted)
-        if constexpr (K::canx && gil::num_channels<V>::value == 3) f(gil::color_converted_view<typename V::value_type>(v, inv_cc()));
+        if constexpr (K::canx && is3<V> && D == 0) f(gil::color_converted_view<typename V::value_type>(v, inv_cc()));
         else f.out = "bad-op";
         break;
     default: f.out = "bad-xform";
@@ -211,12 +261,12 @@ template <class K, class V> void walk(V const& v, std::vector<Xf> const& xs, siz
 template <class K> std::string view_op(std::vector<std::string> const& w) {
     long W = hv::to_ll(w[2]), H = hv::to_ll(w[3]), PAD = hv::to_ll(w[4]), OFF = hv::to_ll(w[5]);
     auto xs = parse_xf(w[6]);
-    Obs<K> obs; obs.wx = hv::to_ll(w[7]); obs.wy = hv::to_ll(w[8]);
+    Obs<K> obs; obs.wx = hv::to_ll(w[7]); obs.wy = hv::to_ll(w[8]); obs.assign = (w[0] == "xa");
     std::memset(ARENA, 0, ARENA_SIZE);
     try {
         auto src = K::make(W, H, PAD, OFF);
         if constexpr (!K::virt) { for (long y = 0; y < H; ++y) for (long x = 0; x < W; ++x) encode(src(x, y), y * W + x + 1, K::cb); }
-        walk<K>(src, xs, 0, obs);
+        walk<K, 0>(src, xs, 0, obs);
     } catch (assert_error const& e) { return std::string("assert:") + e.what(); }
     return obs.out;
 }
@@ -231,7 +281,7 @@ using b12_t = gil::bit_aligned_image3_type<4, 4, 4, gil::rgb_layout_t>::type;
 int main() {
     return hv::run([](std::string const& line) -> std::string {
         auto w = hv::words(line);
-        if (w.size() == 9 && w[0] == "xf") {
+        if (w.size() == 9 && (w[0] == "xf" || w[0] == "xa")) {
             std::string const& k = w[1];
 #if KGROUP == 0 || KGROUP == 1
             if (k == "g8") return view_op<K_inter<gil::gray8_pixel_t, 8, true, false>>(w);
